@@ -69,12 +69,28 @@ def transmission(obj: np.ndarray, obj_type: str) -> np.ndarray:
     return obj.astype(np.complex128)
 
 
-def exit_waves(trans, probe, position, sampling, wavelength, thicknesses):
+TIE_RULES = ("even", "up", "down")
+
+
+def nearest_pixel(p: float, tie: str = "even") -> int:
+    """Nearest integer to p.  Exactly half-way positions have two nearest pixels; which one serves as
+    the window origin is a convention (the probe is then shifted by +0.5 or -0.5 accordingly, so its
+    physical position is p either way): "even" = to the even neighbour, "up" = k + 1, "down" = k."""
+    if tie == "even":
+        return int(np.rint(p))
+    if tie == "up":
+        return int(math.floor(p + 0.5))
+    if tie == "down":
+        return int(math.ceil(p - 0.5))
+    raise ValueError(tie)
+
+
+def exit_waves(trans, probe, position, sampling, wavelength, thicknesses, tie="even"):
     """(M, R, C) exit waves for one scan position.  trans: (S, Ro, Co) complex transmission."""
     S, Ro, Co = trans.shape
-    M, R, C = probe.shape
-    r0 = int(np.rint(position[0]))
-    c0 = int(np.rint(position[1]))
+    _M, R, C = probe.shape
+    r0 = nearest_pixel(float(position[0]), tie)
+    c0 = nearest_pixel(float(position[1]), tie)
     rows = (r0 + dft_offsets(R)) % Ro
     cols = (c0 + dft_offsets(C)) % Co
     psi = fourier_shift(probe, position[0] - r0, position[1] - c0)
@@ -94,21 +110,22 @@ def detect(psi: np.ndarray) -> np.ndarray:
     return np.roll(inten, (R // 2, C // 2), axis=(0, 1))
 
 
-def simulate(obj, obj_type, probe, positions, sampling, energy, thicknesses) -> np.ndarray:
+def simulate(obj, obj_type, probe, positions, sampling, energy, thicknesses, tie="even") -> np.ndarray:
     """(J, R, C) float64 diffraction intensities.
 
     obj         (S, Ro, Co) complex transmission function, or real potential for obj_type "potential"
     probe       (M, R, C) complex, real-space, origin at pixel [0, 0]
     positions   (J, 2) probe positions in object pixels (fractional)
     sampling    (2,) object pixel size in Angstrom
-    thicknesses (S-1,) distances between consecutive slices in Angstrom"""
+    thicknesses (S-1,) distances between consecutive slices in Angstrom
+    tie         window-origin convention for positions exactly half-way between two pixels (TIE_RULES)"""
     trans = transmission(obj, obj_type)
     probe = np.asarray(probe, dtype=np.complex128)
     lam = wavelength_angstrom(float(energy))
     positions = np.asarray(positions, dtype=np.float64)
     out = np.empty((positions.shape[0],) + probe.shape[-2:], dtype=np.float64)
     for j in range(positions.shape[0]):
-        out[j] = detect(exit_waves(trans, probe, positions[j], sampling, lam, thicknesses))
+        out[j] = detect(exit_waves(trans, probe, positions[j], sampling, lam, thicknesses, tie))
     return out
 
 
